@@ -20,7 +20,7 @@ ASSUMPTIONS = [
     "OP is evaluated only with methods that do not force start nodes (the OP start rule is a recorded C12 finding)",
     "sampling with select_best happens inside the policy call (covered by C12's tap); here its returned reward is checked against the returned actions",
 ]
-REQUIRED_COUNTERS = ["c15_augment_calls", "c15_copies_checked", "c15_eval_calls", "c15_eval_rows", "c15_candidates", "c15_sampling_replays", "c15_model_val_rows"]
+REQUIRED_COUNTERS = ["c15_evaluator_reuse_calls", "c15_augment_calls", "c15_copies_checked", "c15_eval_calls", "c15_eval_rows", "c15_candidates", "c15_sampling_replays", "c15_model_val_rows"]
 MIN_NONTRIVIAL = {"quick": 1500, "thorough": 6000}
 WORKERS = {"quick": 14, "thorough": 16}
 BUDGET_S = {"quick": 500, "thorough": 3000}
@@ -57,6 +57,11 @@ def cases(tier, seed):
         for m in ms:
             for (N, bs) in (((7, 3),) if q else ((7, 3), (6, 6), (5, 8))):
                 out.append(dict(kind="eval", env=env, extra=extra, n=rnd.choice([6, 8]), N=N, bs=bs, method=m, s=rnd.randrange(10**6), A=8 if "dihedral" in m else rnd.choice([2, 4, 8]), k=rnd.choice([3, 5])))
+    # evaluator objects reused across data sets
+    for env in ("tsp", "cvrp"):
+        for cls_name in ("GreedyEval", "AugmentationEval", "SamplingEval", "GreedyMultiStartEval", "GreedyMultiStartAugmentEval"):
+            for r in range(1 if q else 3):
+                out.append(dict(kind="evaluator_reuse", env=env, n=rnd.choice([6, 8]), evaluator=cls_name, sizes=[rnd.choice([5, 6]), rnd.choice([3, 4]), 2], bs=rnd.choice([2, 3, 8]), A=rnd.choice([2, 4]), s=rnd.randrange(10**6)))
     for model, grid in (("pomo", ((3, 8), (5, 8), (4, 1))), ("symnco", ((0, 4), (4, 4), (3, 2), (5, 2), (6, 1), (4, 0)))):
         for (S, A) in grid:
             for env in ("tsp", "cvrp"):
@@ -69,7 +74,7 @@ def cases(tier, seed):
 def run_case(ctx, case):
     from vlib import c15impl
 
-    {"augment": c15impl.augment_case, "eval": c15impl.eval_case, "model_val": c15impl.model_val_case}[case["kind"]](ctx, case)
+    {"augment": c15impl.augment_case, "eval": c15impl.eval_case, "model_val": c15impl.model_val_case, "evaluator_reuse": c15impl.evaluator_reuse_case}[case["kind"]](ctx, case)
 
 
 MANIFEST = {
